@@ -21,7 +21,7 @@ ANCHORS = ["decaylanguage.dec.dec:DecFileParser.load_additional_decay_models", "
            "decaylanguage.dec.dec:DecayModelAliasReplacement._replacement", "decaylanguage.dec.dec:get_model_name"]
 WORKERS = {"quick": 4, "thorough": 16}
 CONTEXTS = ["bare", "params", "photos", "photos+params", "wrapped", "extended-daughters", "extended-params", "space-before-semicolon"]
-REQUIRED = {**{f"context:{c}": 135 for c in CONTEXTS}, "published-name-in-all-contexts": 1, "prefix-pairs-all": 1, "published-after-user-registration": 135,
+REQUIRED = {"copied-object:grammar-deepcopy-register-on-the-copy": 3, "copied-object:register-deepcopy": 3, "copied-object:register-pickle": 3, "copied-object:original-without-the-names-refuses": 2, **{f"context:{c}": 135 for c in CONTEXTS}, "published-name-in-all-contexts": 1, "prefix-pairs-all": 1, "published-after-user-registration": 135,
             "user-name": 200, "user-name:special-char:.": 3, "user-name:special-char:+": 3, "user-name:special-char:*": 3, "user-name:special-char:(": 3,
             "user-name:ends-in-nonword": 5, "user-name:extends-published": 20, "user-name:prefix-of-published": 20, "registration:several-calls": 20, "user-names:shorter-then-longer-through-dash": 5, "user-name:starts-with-a-digit": 10, "model-alias-of-a-registered-model": 10, "registration:published-name-among-the-new-ones": 10, "registration-after-a-refused-parse": 10, "registered-names-second-parse": 20, "grammar-accessed-before-registration": 10, "grammar-accessed-between-registrations": 5, "grammar-accessed-after>=2-registrations-and-before-another": 3, "crlf-text": 10,
             "near-miss-rejected": 300, "near-miss:dot-replaced": 3, "near-miss:alias-misspelled": 5, "near-miss:alias-of-an-earlier-file": 5, "near-miss:registered-on-another-instance": 20, "alias-name-extends-model": 20}
@@ -125,6 +125,49 @@ def check_accept(ctx, stmts, user_calls, label, nontrivial=True):
             return q, []
 
         ok, res = ctx.guard("parse-supported-model:registered-after-refused-parse", wit, late_registration)
+    elif user_calls and not gfirst and ctx.rng.random() < 0.3:
+        # history with a copy of the object: (a) grammar read, object deep-copied, the names registered on the COPY, the copy parsed
+        # (the original, which never had them, still refuses them); (b) names registered, object copied (deepcopy / pickle / copy), the copy parsed
+        how = ctx.rng.choice(["grammar-deepcopy-register-on-the-copy", "register-deepcopy", "register-pickle", "register-copy"])
+        ctx.hit("copied-object:" + how)
+        wit["copied_object"] = how
+
+        def copied():
+            import copy  # noqa: PLC0415
+            import pickle  # noqa: PLC0415
+            import warnings  # noqa: PLC0415
+            from decaylanguage import DecFileParser  # noqa: PLC0415
+
+            q = DecFileParser.from_string(text)
+            extra = []
+            with warnings.catch_warnings():
+                warnings.simplefilter("ignore")
+                if how.startswith("grammar"):
+                    q.grammar()
+                    c = copy.deepcopy(q)
+                    for call in user_calls:
+                        c.load_additional_decay_models(*call)
+                    c.parse()
+                    try:
+                        q.parse()
+                    except Exception:  # noqa: BLE001
+                        ctx.hit("copied-object:original-without-the-names-refuses")
+                    else:
+                        pub = set(L.published_models())
+                        used = {d["model"] for m in q.list_decay_mother_names() for d in q.build_decay_chains(m, stable_particles=[x for fs in q.list_decay_modes(m) for x in fs])[m]}
+                        if [x for x in used if x in um and x not in pub]:
+                            extra.append(("unknown-model-accepted:registered-on-a-copy-only", f"the original object never had {um} registered and reports models {sorted(used)}"))
+                else:
+                    for call in user_calls:
+                        q.load_additional_decay_models(*call)
+                    c = copy.deepcopy(q) if how == "register-deepcopy" else pickle.loads(pickle.dumps(q)) if how == "register-pickle" else copy.copy(q)
+                    c.parse()
+            return c, extra
+
+        ok, res = ctx.guard("parse-supported-model:copied-object", wit, copied)
+        if ok:
+            for mech, msg in res[1]:
+                ctx.violate(mech, msg, wit)
     else:
         ok, res = ctx.guard("parse-supported-model", wit, snapshot.make_parser, text, None, um, True, user_calls if user_calls else None, gfirst)
     if not ok:
